@@ -1374,75 +1374,131 @@ func bytesOnlyZeroAndShiftTested(f *Fn) (ast.Node, string) {
 			}
 		}
 	}
-	var bad ast.Node
-	why := ""
+	parent := map[ast.Node]ast.Node{}
 	var stack []ast.Node
-	isZero := func(e ast.Expr) bool {
-		v, ok := f.ConstVal(e)
-		return ok && v == "0"
-	}
 	ast.Inspect(f.Body, func(n ast.Node) bool {
 		if n == nil {
 			stack = stack[:len(stack)-1]
 			return true
 		}
-		stack = append(stack, n)
-		if bad != nil {
-			return true
+		if len(stack) > 0 {
+			parent[n] = stack[len(stack)-1]
 		}
+		stack = append(stack, n)
+		return true
+	})
+	up := func(n ast.Node) (ast.Node, ast.Expr) { // first non-paren ancestor, and the (parenthesised) child below it
+		cur, _ := n.(ast.Expr)
+		p := parent[n]
+		for {
+			pe, ok := p.(*ast.ParenExpr)
+			if !ok {
+				return p, cur
+			}
+			cur = pe
+			p = parent[p]
+		}
+	}
+	isZero := func(e ast.Expr) bool {
+		v, ok := f.ConstVal(e)
+		return ok && v == "0"
+	}
+	var bad ast.Node
+	why := ""
+	fail := func(n ast.Node, w string) {
+		if bad == nil {
+			bad, why = n, w
+		}
+	}
+	seenVar := map[*types.Var]bool{}
+	// valueUse: e holds a hash byte (shifted==false) or a hash byte shifted right by some
+	// amount (shifted==true); check what is done with it
+	var valueUse func(e ast.Expr, shifted bool)
+	var varUses func(v *types.Var, shifted bool)
+	valueUse = func(e ast.Expr, shifted bool) {
+		p, cur := up(e)
+		switch x := p.(type) {
+		case *ast.BinaryExpr:
+			switch {
+			case x.Op == token.SHR && !shifted && ast.Unparen(x.X) == ast.Unparen(cur):
+				valueUse(x, true)
+			case x.Op == token.EQL || x.Op == token.NEQ:
+				other := x.X
+				if ast.Unparen(x.X) == ast.Unparen(cur) {
+					other = x.Y
+				}
+				if !isZero(other) {
+					fail(x, "element compared with a non-zero value")
+				}
+			default:
+				fail(x, "element not compared with ==/!=")
+			}
+		case *ast.AssignStmt:
+			// b := hash[i]  - a copy: the discipline applies to every use of b
+			if len(x.Lhs) == len(x.Rhs) && (x.Tok == token.DEFINE || x.Tok == token.ASSIGN) {
+				for i, r := range x.Rhs {
+					if ast.Unparen(r) == ast.Unparen(cur) {
+						if v := f.varOf(x.Lhs[i]); v != nil {
+							varUses(v, shifted)
+							return
+						}
+					}
+				}
+			}
+			fail(x, "element stored somewhere the discipline cannot follow")
+		case *ast.ValueSpec:
+			for i, r := range x.Values {
+				if ast.Unparen(r) == ast.Unparen(cur) && i < len(x.Names) {
+					if v, ok := f.Info.Defs[x.Names[i]].(*types.Var); ok {
+						varUses(v, shifted)
+						return
+					}
+				}
+			}
+			fail(x, "element stored somewhere the discipline cannot follow")
+		default:
+			fail(e, "element not compared with ==/!=")
+		}
+	}
+	varUses = func(v *types.Var, shifted bool) {
+		if seenVar[v] {
+			return
+		}
+		seenVar[v] = true
+		for _, d := range f.defsOf(v) {
+			if d.multi || d.rhs == nil {
+				fail(d.rhs, "copy of an element also defined otherwise")
+			}
+		}
+		ast.Inspect(f.Body, func(n ast.Node) bool {
+			id, ok := n.(*ast.Ident)
+			if !ok || f.Info.Uses[id] != types.Object(v) {
+				return true
+			}
+			// a mention on the left of an assignment is a definition, not a use
+			if as, ok := parent[id].(*ast.AssignStmt); ok {
+				for _, l := range as.Lhs {
+					if l == ast.Expr(id) {
+						return true
+					}
+				}
+			}
+			valueUse(id, shifted)
+			return true
+		})
+	}
+	ast.Inspect(f.Body, func(n ast.Node) bool {
 		id, ok := n.(*ast.Ident)
 		if !ok || f.Info.ObjectOf(id) != pobj {
 			return true
 		}
-		// expected ancestors: IndexExpr -> [BinaryExpr SHR ->] BinaryExpr EQL/NEQ with 0
-		k := len(stack) - 2
-		for k >= 0 {
-			if _, ok := stack[k].(*ast.ParenExpr); ok {
-				k--
-				continue
-			}
-			break
-		}
-		ix, ok := stack[k].(*ast.IndexExpr)
-		if !ok || ast.Unparen(ix.X) != ast.Expr(id) {
-			bad, why = id, "used other than as p[i]"
+		p, cur := up(id)
+		ix, ok := p.(*ast.IndexExpr)
+		if !ok || ast.Unparen(ix.X) != ast.Unparen(cur) {
+			fail(id, "used other than as p[i]")
 			return true
 		}
-		k--
-		var cur ast.Expr = ix
-		for k >= 0 {
-			if _, ok := stack[k].(*ast.ParenExpr); ok {
-				cur = stack[k].(ast.Expr)
-				k--
-				continue
-			}
-			break
-		}
-		be, ok := stack[k].(*ast.BinaryExpr)
-		if ok && be.Op == token.SHR && ast.Unparen(be.X) == ast.Unparen(cur) {
-			cur = be
-			k--
-			for k >= 0 {
-				if _, ok := stack[k].(*ast.ParenExpr); ok {
-					cur = stack[k].(ast.Expr)
-					k--
-					continue
-				}
-				break
-			}
-			be, ok = stack[k].(*ast.BinaryExpr)
-		}
-		if !ok || (be.Op != token.EQL && be.Op != token.NEQ) {
-			bad, why = ix, "element not compared with ==/!="
-			return true
-		}
-		other := be.X
-		if ast.Unparen(be.X) == ast.Unparen(cur) {
-			other = be.Y
-		}
-		if !isZero(other) {
-			bad, why = be, "element compared with a non-zero value"
-		}
+		valueUse(ix, false)
 		return true
 	})
 	return bad, why
